@@ -207,7 +207,31 @@ func BuildSchema15(live *Live) *graphql.Schema {
 		}),
 	)
 
+	// wide fan-out: n objects, each with expensive / batch / plain fields and further levels below
+	q.FieldFunc("many", func(args struct{ N int64 }) []*Obj {
+		n := args.N
+		if n < 0 || n > 1000 {
+			n = 0
+		}
+		out := make([]*Obj, n)
+		for i := range out {
+			out[i] = &Obj{X: int64(i), Y: "m"}
+		}
+		return out
+	})
+
 	o := s.Object("Obj", Obj{})
+	// next nests without end (the query bounds the depth): for hostile-but-small deep queries
+	o.FieldFunc("next", func(o *Obj) *Obj { return &Obj{X: o.X + 1, Y: o.Y, Depth: o.Depth + 1} })
+	o.FieldFunc("ex", func(o *Obj) *Obj { return &Obj{X: o.X, Y: o.Y + "e", Depth: o.Depth + 1} }, schemabuilder.Expensive)
+	o.FieldFunc("exn", func(o *Obj) int64 { return o.X }, schemabuilder.Expensive)
+	o.BatchFieldFunc("bself", func(in map[batch.Index]*Obj) (map[batch.Index]*Obj, error) {
+		out := map[batch.Index]*Obj{}
+		for i, v := range in {
+			out[i] = &Obj{X: v.X, Y: v.Y + "b", Depth: v.Depth + 1}
+		}
+		return out, nil
+	})
 	var fbFlip int64
 	o.BatchFieldFuncWithFallback("fboom", func(ctx context.Context, in map[batch.Index]*Obj, args BoomArgs) (map[batch.Index]*int64, error) {
 		v, err := boom(ctx, args.Mode)
